@@ -9,4 +9,7 @@ cmp -s "$REPO_DIR/go.sum" mc/go.sum || cp "$REPO_DIR/go.sum" mc/go.sum
 ( cd mc && go build -o ../bin/vcheck.untagged ./cmd/vcheck )
 ( cd mc && go build -tags verif -o ../bin/vcheck ./cmd/vcheck )
 rm -f bin/vcheck.untagged
+# warm the instrumented and the -race builds (C19)
+( cd mc && go build -race -o ../bin/vrace ./cmd/vrace )
+( cd mc && go test -count=1 ./ref/refcrypto/ )
 echo "setup ok"
